@@ -259,8 +259,11 @@ def r5_subunit_forces_buffer(ctx, rep):
              'path that leaves the subunit branch without giving up sets options.buffer = True)')
     fi = ctx.model.func('options.get_options')
     g = ctx.cfg(fi)
+    # option values read into a local first (``v1 = options.subunit``) are looked through
+    from .common import expander
+    expand = expander(fi.node, only=lambda v: (dotted(v) or '').startswith('options.'))
     tests = [n for n in g.nodes if n.kind == 'test' and isinstance(n.stmt, ast.If) and
-             'options.subunit' in norm(n.ast) and 'subunit_v2' in norm(n.ast) and
+             'options.subunit' in norm(expand(n.ast)) and 'subunit_v2' in norm(expand(n.ast)) and
              isinstance(n.ast, ast.BoolOp) and isinstance(n.ast.op, ast.Or)]
     sets = [n.id for n in g.nodes if n.kind == 'stmt' and isinstance(n.ast, ast.Assign) and
             any(dotted(t) == 'options.buffer' for t in n.ast.targets) and
